@@ -146,6 +146,15 @@ var v2Endpoints = []endpointV2{
 	{"v2-logs", "GET", "/api/ledger/v2/l1/logs", []string{"date"}},
 }
 
+// altKeys: harmless keys per v2 endpoint (a hostile key may be interpreted as any of them)
+var altKeys = map[string][]string{}
+
+func init() {
+	for _, ep := range v2Endpoints {
+		altKeys[ep.name] = append(append([]string{}, ep.keys...), "metadata[x]")
+	}
+}
+
 type endpointV1 struct {
 	name, path string
 	params     []string
@@ -206,6 +215,17 @@ func genFilterCase(r *vc.Rand, value string) (hostileCase, benignCase filterCase
 		case isAddressKey(key):
 			hv = addressShapes(r, value)
 			bv = benignOf(hv, true)
+		}
+		if r.Chance(1, 8) {
+			// the filter key itself: hostile text wrapped around a valid column name (prefix / suffix / both)
+			pos = "key"
+			base := strings.SplitN(key, "[", 2)[0]
+			hkey = vc.Pick(r, []string{base + " " + value, value + " " + base, base + " = '' or true or " + base, base + value, base + "/*" + value + "*/", base + "\n" + value + " " + base, base + "[" + value, "metadata[" + value + "] or " + base})
+			bkey = key
+			hv, bv = "v", "v"
+			if isAddressKey(key) {
+				hv, bv = "x:", "x:"
+			}
 		}
 		and := 0
 		if r.Chance(1, 2) {
@@ -330,6 +350,24 @@ func runC20(cfg *vc.Config, rep *vc.Report) {
 		}
 		rep.Inc("statements_compared")
 		rep.DistinctCase(vc.Hash64(hc.Target, hc.Body))
+		if hc.Position == "key" && strings.Join(hsk, "\n") != strings.Join(bsk, "\n") {
+			// a hostile key may legitimately be read as another kind of filter (the metadata[...] / balance[...] key patterns
+			// are not anchored): what matters is that the statement is the statement of SOME harmless key of this endpoint
+			rep.Inc("hostile_keys_accepted")
+			ok := false
+			for _, alt := range altKeys[hc.Endpoint] {
+				ab := strings.Replace(bc.Body, jsonStr(bc.Key)+":", jsonStr(alt)+":", 1)
+				_, _, ast, _ := e.do(bc.Method, bc.Target, ab)
+				ask, _ := skeletons(ast)
+				if strings.Join(hsk, "\n") == strings.Join(ask, "\n") {
+					ok = true
+					break
+				}
+			}
+			if ok {
+				bsk = hsk
+			}
+		}
 		if strings.Join(hsk, "\n") != strings.Join(bsk, "\n") {
 			rep.Violate(sig+":structure-differs", fmt.Sprintf("benign (%s, HTTP %d): %s\nhostile (HTTP %d): %s", bc.Value, bcode, lastStmt(bst), hcode, lastStmt(hst)), i, hc)
 			return
